@@ -11,11 +11,13 @@ echo >> $OUT; echo "| seed | check | exit | verdict |" >> $OUT; echo "|---|---|-
 bad=0
 for s in $SEEDS; do
   prop=$(python3 -c "import json;print(json.load(open('seeded/$s/meta.json'))['property'])")
+  oos=$(python3 -c "import json;print(int(bool(json.load(open('seeded/$s/meta.json')).get('out_of_scope'))))")
   git -C /repo apply /verif/seeded/$s/patch.diff || { echo "| $s | $prop | - | patch does not apply |" >> $OUT; bad=1; continue; }
   timeout 3000 bin/check $prop --tier quick > /tmp/seedregress.out 2>&1; rc=$?
   git -C /repo checkout -- .
   v="MISSED"; [ $rc -eq 1 ] && v="detected"; [ $rc -eq 2 ] && v="machinery error"
-  [ $rc -ne 1 ] && bad=1
+  if [ $oos -eq 1 ]; then v="not detected (does not break the property as stated, see meta.json)"; [ $rc -ne 0 ] && { v="UNEXPECTED exit $rc on an out-of-scope seed"; bad=1; }
+  else [ $rc -ne 1 ] && bad=1; fi
   echo "| $s | $prop | $rc | $v |" >> $OUT
   echo "$s $prop exit=$rc $v"
 done
